@@ -1014,6 +1014,14 @@ int main(int argc, char **argv)
         } else { fprintf(stderr, "bad case line: %s\n", k); return 3; }
     }
     fclose(f);
+    /* script times are relative to the start of the run */
+    for (i = 0; i < nvhosts; i++) {
+        int j, k;
+        vhosts[i].conn_at += vclock;
+        for (k = 0; k < 2; k++)
+            for (j = 0; j < vhosts[i].s[k].n; j++)
+                vhosts[i].s[k].it[j].at += vclock;
+    }
     fanout = opt.fanout;
     ct = opt.connect_timeout;
     ut = opt.command_timeout;
